@@ -337,13 +337,15 @@ def View.feeOf (v : View) (id : Nat) : Nat := match v.get id with | some p => p.
 def sumBy (f : Nat → Nat) (l : List Nat) : Nat := (l.map f).sum
 
 /-- ids are unique; ancestor lists are duplicate-free, transitively closed and consist of pool
-    entries; every listed descendant has the entry among its ancestors -/
+    entries; every listed descendant has the entry among its ancestors; descendant lists are
+    duplicate-free -/
 def LinksOk (v : View) : Prop :=
   v.ids.Nodup ∧
   (∀ x ∈ v.ids, (v.anc x).Nodup) ∧
   (∀ x ∈ v.ids, ∀ a ∈ v.anc x, a ∈ v.ids) ∧
   (∀ x ∈ v.ids, ∀ a ∈ v.anc x, ∀ b ∈ v.anc a, b ∈ v.anc x) ∧
-  (∀ p ∈ v.ids, ∀ d ∈ v.desc p, p ∈ v.anc d)
+  (∀ p ∈ v.ids, ∀ d ∈ v.desc p, p ∈ v.anc d) ∧
+  (∀ p ∈ v.ids, (v.desc p).Nodup)
 
 instance (v : View) : Decidable (LinksOk v) := by unfold LinksOk; infer_instance
 
